@@ -35,6 +35,16 @@ CHECKS = {
                      "an output value (all parameter values of each cell); each cell witness is replayed on real Fractions and every output is type-checked and "
                      "compared exactly with the exact rational of the symbolic run; regression witnesses for the repaired limit_denominator defect.",
                 technique="symbolic execution with exact/float kind tags (SYMX) + z3 path exploration; exact typed replay of each cell witness"),
+    "C03": dict(level="model_checking", design="4/C03",
+                text="Real `B(t) in A`, `A in B(t)`, contains_jordan(J(t), flag) under SYMX for all kind pairs; per path cell z3 decides: answer True => no point "
+                     "of the inner region/curve outside the outer one (query point / curve parameter free); answer False => (quantified LRA) no parameter of the cell at "
+                     "which everything is contained. Replays decide the exact subset relation at the witness by an existential z3 query over the concrete polygons.",
+                technique="symbolic execution of the real code (SYMX) + z3 (QF_LRA and quantified LRA) per path cell, counterexample replay"),
+    "C14": dict(level="model_checking", design="4/C14",
+                text="Real JordanCurve.intersection (all flag combinations), swapped operands and A & B under SYMX on polygon pairs with one curve translated symbolically; "
+                     "per path cell z3 decides ranges, common-point identities, completeness w.r.t. the proper-crossing predicate of every edge pair, the (None, None) "
+                     "encoding, swap symmetry and exact flag filtering.",
+                technique="symbolic execution of the real code (SYMX) + z3 per path cell (polynomial identities, orientation predicates)"),
 }
 NA = {}
 
